@@ -207,6 +207,9 @@ func selfLinkVerdict(link, prepath string, frags []string, isCol bool, fields ma
 	if i := strings.IndexByte(rest, '?'); i >= 0 {
 		path, query = rest[:i], rest[i+1:]
 	}
+	if len(frags) == 0 && path == "" {
+		path = "/" // a URL without fragments has no path at all
+	}
 	if !strings.HasPrefix(path, "/") {
 		return "self link: no path after the prefix"
 	}
